@@ -430,6 +430,8 @@ func (w *World) Box(t types.Type) (box, unbox string) {
 		s := w.SortOf(t)
 		w.declFun(box, fmt.Sprintf("(declare-fun %s (%s) Int)", box, s))
 		w.declFun(unbox, fmt.Sprintf("(declare-fun %s (Int) %s)", unbox, s))
+		// boxing is injective (needed for boxed terms under binders, where no ground fact can be emitted)
+		w.axioms = append(w.axioms, fmt.Sprintf("(assert (forall ((x %s)) (! (= (%s (%s x)) x) :pattern ((%s x)))))", s, unbox, box, box))
 	}
 	return
 }
